@@ -199,6 +199,10 @@ pub fn run(cx: &mut Cx) {
             ensure!(rb.capacity() == cap && filled.len() + rest.len() == cap, "capacity changed");
             ensure!(rb.initialize_unfilled().to_vec() == rest, "rest = {:?}, model {rest:?}", rb.initialize_unfilled());
         }
+        // rb_same_slice: the buffer never re-points; when the ReadBuf dies the caller's slice holds filled ++ rest
+        drop(rb);
+        let exp: Vec<u8> = [&filled[..], &rest[..]].concat();
+        ensure!(storage == exp, "the caller's slice ends up as {storage:?}, the buffer held {exp:?}");
         Ok(())
     });
     cx.check_n("netshim_io.rs::ReadBuf::advance (requires is tight: n > rest.len() panics)", 256, |rng| {
